@@ -20,7 +20,7 @@ semantically equal are not deviations and are excluded (1 for 1.0, null for an a
 string-set element). Then random double deviations, and 1..16 concurrent canonical clients with tape-driven \
 interleaving of their steps, all of which must finish with all_ok. Oracle: the reply to the deviating request \
 (delimited by a following GetInfo probe) is an error reply, nothing (oneway) or a closed connection - never a \
-reply without `error`. Non-trivial: a deviation at a step >= Test01 that keeps the request well-typed; distinct \
+reply without `error`. Also: every test step sent again after End, five respellings of the client's own id, and a duplicate-step race (one id, one step, six connections at the same instant: exactly one success reply). Non-trivial: a deviation at a step >= Test01 that keeps the request well-typed; distinct \
 by (step, deviation).";
 
 const T: Duration = Duration::from_secs(10);
